@@ -14,7 +14,9 @@ Lower(c) == IF c >= 65 /\ c <= 90 THEN c + 32 ELSE c
 Upper(c) == IF c >= 97 /\ c <= 122 THEN c - 32 ELSE c
 \* length of the string starting at o
 RECURSIVE StrLen(_, _)
-StrLen(m, o) == IF At(m, o) = 0 THEN 0 ELSE 1 + StrLen(m, o + 1)
+\* (the end of the arena ends a string too: the n-bounded functions may be given a buffer of exactly n
+\* unterminated bytes at the end of the arena; every other function is only called on terminated strings)
+StrLen(m, o) == IF o >= Len(m) \/ At(m, o) = 0 THEN 0 ELSE 1 + StrLen(m, o + 1)
 Bytes(m, o, n) == [i \in 1..n |-> At(m, o + i - 1)]
 Str(m, o) == Bytes(m, o, StrLen(m, o))
 Put(m, o, s) == [i \in 1..Len(m) |-> IF i - 1 >= o /\ i - 1 < o + Len(s) THEN s[i - o] ELSE m[i]]
